@@ -36,6 +36,8 @@ def run_shard(prop, tier, seed, shard, nshards, outfile, case_timeout):
     def _term(signum, frame):
         raise _Term()
     import signal
+    import faulthandler
+    faulthandler.register(signal.SIGUSR1, file=sys.stderr, all_threads=True)   # `kill -USR1 <worker>` shows where it is
     signal.signal(signal.SIGTERM, _term)
     tmo_by_f = {}
     terminated = False
@@ -73,6 +75,8 @@ def run_shard(prop, tier, seed, shard, nshards, outfile, case_timeout):
     if monitor.history.ENABLED:
         for k, v in monitor.history.HIST.stats.items():
             REC.tag(prop, 'history:' + k, v)
+        for (g, f), v in monitor.history.HIST.siblings_seen.items():
+            REC.tag(prop, 'history:sibling:%s->%s' % (g, f), v)
     out = REC.dump()
     out.update({'ncases_total': len(cases), 'ncases_shard': len(mine), 'done': done,
                 'wall_s': time.time() - t0, 'coverage': cov.report(), 'terminated': terminated})
